@@ -20,6 +20,8 @@ pub mod c16;
 pub mod c17;
 #[cfg(paseto_verif)]
 pub mod h1;
+#[cfg(feature = "ffi")]
+pub mod third;
 
 pub fn run(prop: &str, opts: &Opts) -> bool {
     match prop {
